@@ -10,7 +10,49 @@ COMMON_NOTE = ('Trusted base: Coq 8.16.1 kernel (vm_compute in some proofs, no n
                '(every theorem "Closed under the global context" unless the evidence names one), the fail-closed '
                'Python-ast translator, ExtrOcamlBasic-only extraction + ocaml/driver.ml, the correspondence harness. ')
 
+CHAIN_NOTE = ('Modelled not verified: signature extraction by boltons FunctionBuilder (the harness functions have real '
+              'signatures and record what they receive), CPython keyword-call semantics (sig_accepts), user middlewares '
+              'calling next() with their declared provides; set iteration order (quantified by hash seeds in the thorough tier). ')
+
 CLAIMED = {
+ 'C01': dict(
+   text=('Theorems (Props/C01.v) over a Gallina transcription of chain_argspec/make_chain/build_chain_str/'
+         'make_middleware_chain/check_middlewares/cycle test/Application.__init__ and a definitional interpreter of the '
+         'generated code: for every route configuration (any number of middlewares, any signatures) outside C04 rejections '
+         'and clastic\'s cycle test, construction succeeds iff the declarative availability table resolves every required '
+         'parameter, every failure is NameError; an accepted plan never produces a missing/unexpected/unbound argument under '
+         'any script assignment and any injected environment (partial: positional-only parameters excluded = known finding F2, '
+         'witnessed by C01_posonly_refuted). Tie: reserved/builtin tables regenerated from the source + differential run '
+         'of the extracted model against real Applications built from generated configurations.'),
+   note=COMMON_NOTE + CHAIN_NOTE, technique='Coq proof (refinement of the bind-time check to a declarative spec; induction over chains) + translator-generated tables + extracted-model differential check',
+   design='6/C01'),
+ 'C02': dict(
+   text=('Theorems (Props/C02.v): in every accepted plan the keyword list of every generated call is exactly the declared '
+         'parameters that a source offers at that position (URL/built-ins/resources, request provides for later phases, '
+         'context only in render, provides of earlier middlewares of the same chain), sources of an accepted route are '
+         'pairwise distinct (no shadowing). Values: the interpreter threads sentinels; the implementation is observed with '
+         'distinct sentinel objects checked by identity, positional and keyword next() calls, list-valued URL bindings '
+         'mutated between requests, two requests per route.'),
+   note=COMMON_NOTE + CHAIN_NOTE, technique='Coq proof (exact keyword sets of the call plan, NoDup of sources) + extracted-model differential check on sentinel values',
+   design='6/C02'),
+ 'C03': dict(
+   text=('Theorems (Props/C03.v): every trace of every plan under every script assignment is well bracketed; functions are '
+         'entered in list order and a layer that does not call next cuts off everything inside; merge_middlewares puts the '
+         'outer list first, keeps the inner order, keeps a unique type once at its outermost position and fails (ValueError) '
+         'only for a unique non-reorderable duplicate. Tie: exact equality of enter/leave traces between the extracted '
+         'interpreter and real applications with scripted middlewares (raise before/after, early Response, swallow, replace) '
+         'at application and route level.'),
+   note=COMMON_NOTE + CHAIN_NOTE, technique='Coq proof (trace invariants by induction over the chain; list lemmas on merge) + extracted-model differential check on traces',
+   design='6/C03'),
+ 'C04': dict(
+   text=('Theorems (Props/C04.v): RESERVED_ARGS as regenerated from route.py is the documented six names; any name offered '
+         'twice (URL, reserved built-ins, resources, any provides tuple, counted as a multiset) => construction fails '
+         '(NameError once the middleware shapes are fine); Ok => sources NoDup; reserved application resource => NameError; '
+         'middleware function without next first => rejected; next in endpoint/render => NameError; no accepted route has a '
+         'request/endpoint-phase function requiring context. Tie: one generated stream per defect kind (21 kinds incl. '
+         'instance-level functions and one middleware offering a name in two phases) mixed into valid configurations.'),
+   note=COMMON_NOTE + CHAIN_NOTE, technique='Coq proof (has_dup/NoDup characterisation of check_middlewares, case analysis of make_middleware_chain) + translator-generated tables + extracted-model differential check',
+   design='6/C04'),
  'C19': dict(
    text=('Theorems (Props/C19.v) over Reservoir.add/resize as REGENERATED from clastic/middleware/stats.py on every run: '
          'for every capacity >= 0, every add/resize history of any length and every result of the random generator: never '
